@@ -386,7 +386,8 @@ def delivery_oracle(prop, ops, sig):
             for _, _, name, sp in sorted(cands):
                 exp.append(name)
         # handlers after a taker do not run: the observed list must be a prefix ending in a taker, or the whole list
-        took = any(l == "t  took" for l in obs)
+        # ... and neither do handlers after one that panicked (a `Single` that does not match, say): the panic unwinds
+        took = any(l == "t  took" for l in obs) or any(l.startswith("panic ") for l in obs)
         if got != exp and not (took and got == exp[:len(got)] and got):
             out.append(Finding(prop, i, sig(i, "delivery-oracle"),
                                f"`{op}`: handlers run {got}, receiver queries on the target's components select {exp}"))
